@@ -29,4 +29,9 @@ def handleMonC20 : Toks → Option String :=
     let evs ← list evP
     pure (monC20 plan marked evs)) ts
 
+def handleMonTraced : Toks → Option String :=
+  fun ts => runAll (do
+    let evs ← list evP
+    pure (monTraced evs)) ts
+
 end Cuke.Driver
